@@ -1,6 +1,8 @@
 #!/bin/bash
 # try_seed.sh <seeded dir> <check id>...   applies seeded/<dir>/patch.diff to /repo, runs the checks (quick), restores /repo
 D="/verif/seeded/$1"; shift
+exec 8>/tmp/vcheck-repo.lock; flock 8   # nobody else builds against /repo while the change is applied (see ./check)
+export VCHECK_REPO_LOCK_HELD=1
 [ -z "$(git -C /repo status --porcelain)" ] || { echo "/repo not clean"; exit 2; }
 git -C /repo apply "$D/patch.diff" || { echo "patch does not apply"; exit 2; }
 for id in "$@"; do
